@@ -45,7 +45,7 @@ inductive FVal where
   | str (s : String) | int (i : Int)
   | nil                                 -- nil pointer / nil map / nil interface
   | ptr (v : FVal)                      -- non-nil pointer
-  | rec (fs : FKVs)                     -- struct value, fields in declaration order
+  | obj (fs : FKVs)                     -- struct value, fields in declaration order
   | map (kvs : FKVs)                    -- non-nil map, keys kept sorted by `FKVs.ins`
   | box (t : FTy) (v : FVal)            -- non-nil interface value with dynamic type t
   deriving DecidableEq, Repr, Inhabited
@@ -67,7 +67,7 @@ def zero : FTy → FVal
   | .any => .nil
   | .ptr _ => .nil
   | .map _ => .nil
-  | .struct _ fs => .rec (zeroFields fs)
+  | .struct _ fs => .obj (zeroFields fs)
 def zeroFields : FFields → FKVs
   | .nil => .nil
   | .cons n t r => .cons n (zero t) (zeroFields r)
@@ -157,14 +157,14 @@ def structOf : FTy → Option FFields
 
 def derefRec (t : FTy) (fs : FFields) (d : FVal) : FKVs :=
   match t, d with
-  | .ptr _, .ptr (.rec kvs) => kvs
-  | .struct _ _, .rec kvs => kvs
+  | .ptr _, .ptr (.obj kvs) => kvs
+  | .struct _ _, .obj kvs => kvs
   | _, _ => zeroFields fs
 
 def rewrap (t : FTy) (kvs : FKVs) : FVal :=
   match t with
-  | .ptr _ => .ptr (.rec kvs)
-  | _ => .rec kvs
+  | .ptr _ => .ptr (.obj kvs)
+  | _ => .obj kvs
 
 def mapOf (t : FTy) (d : FVal) : Option (FTy × FKVs) :=
   match t with
@@ -265,11 +265,11 @@ def takeStep (f : TakeFacts) (a : Taken) (viaIface : Bool) (s : Seg) : Except GE
     | some v => .ok (e, v)
     | none => .error .keyMissing
   | some (.map _, _) => .error .keyMissing                 -- nil map: MapIndex is invalid
-  | some (.struct _ fs, .rec kvs) =>
+  | some (.struct _ fs, .obj kvs) =>
     match fieldGet fs kvs s with
     | some r => .ok r
     | none => if f.returnsGenericErr then .error .bad else .error .panic
-  | some (.ptr (.struct _ fs), .ptr (.rec kvs)) =>
+  | some (.ptr (.struct _ fs), .ptr (.obj kvs)) =>
     match fieldGet fs kvs s with
     | some r => .ok r
     | none => if f.returnsGenericErr then .error .bad else .error .panic
